@@ -36,6 +36,20 @@ class Wrapped:
         await asyncio.sleep(0)
         raise ValueError(i)
 
+    async def coroWait(self, i):
+        self._rec(i)
+        await asyncio.sleep(30)
+        return i
+
+    async def coroSlow(self, i):
+        self._rec(i)
+        try:
+            await asyncio.sleep(30)
+            return i
+        finally:
+            for _ in range(6):              # clean-up that needs several loop iterations while the task is being cancelled
+                await asyncio.sleep(0)
+
     def plainNone(self, i):
         self._rec(i)
 
@@ -48,7 +62,7 @@ class Wrapped:
         raise ValueError(i)
 
 
-def scenario(calls, close_before=False, via_eventloopthread=False, burst=1, hold=False):
+def scenario(calls, close_before=False, via_eventloopthread=False, burst=1, hold=False, stopping=False):
     """calls: list of (kind, src) or (kind, src, look).  look = the loop on which the proxy attribute is looked up
     (default: the calling loop); a bound wrapper fetched on one loop and invoked from the other must behave like a
     call made from the invoking loop.  Returns {'caller': [...], 'owner': [...]}"""
@@ -101,6 +115,7 @@ def scenario(calls, close_before=False, via_eventloopthread=False, burst=1, hold
             th.join(30)
     proxy = ThreadsafeProxy(obj, owner_loop)
     blocked = [0]
+    stop_requested = [0]
 
     def classify(exc):
         return "typeerror" if isinstance(exc, TypeError) else "exc"
@@ -135,13 +150,16 @@ def scenario(calls, close_before=False, via_eventloopthread=False, burst=1, hold
             blocked[0] = 1
         log.append(ev)
         if ev["ret"] == "pending":
-            fin = {"a": "final", "i": i, "ret": "", "val": -1}
+            fin = {"a": "final", "i": i, "ret": "", "val": -1, "stopped": 0}
             try:
-                v = await asyncio.wait_for(r, 30)
+                v = await asyncio.wait_for(asyncio.shield(r), 8 if stopping else 30)
                 fin["ret"], fin["val"] = "val", int(v)
             except asyncio.TimeoutError:
                 fin["ret"] = "hang"
                 blocked[0] = 1
+            except asyncio.CancelledError:
+                fin["ret"] = "cancelled"
+                fin["stopped"] = 1 if stop_requested[0] else 0
             except BaseException as e:  # noqa
                 fin["ret"] = classify(e)
                 fin["val"] = int(e.args[0]) if e.args and isinstance(e.args[0], int) else -1
@@ -182,7 +200,16 @@ def scenario(calls, close_before=False, via_eventloopthread=False, burst=1, hold
                     # a call made from the owner's own loop
                     fut = asyncio.run_coroutine_threadsafe(one(idx, kind, 0, caller_log, pres.get(idx)), owner_loop)
                     tasks.append(asyncio.wrap_future(fut))
-            if tasks and hold and not close_before:
+            if tasks and stopping:
+                # the calls are in flight on the owner's loop when it is force-stopped: every caller must still get an answer
+                futs = [asyncio.ensure_future(t) for t in tasks]
+                t_end = time.monotonic() + 5
+                while len(obj.log) < len(futs) and time.monotonic() < t_end:
+                    await asyncio.sleep(0.002)
+                stop_requested[0] = 1
+                stop_owner()
+                await asyncio.gather(*futs)
+            elif tasks and hold and not close_before:
                 # the owner's loop is kept busy while the whole burst is issued: every call of the burst is queued behind the blocker
                 started, release = threading.Event(), threading.Event()
 
@@ -201,7 +228,9 @@ def scenario(calls, close_before=False, via_eventloopthread=False, burst=1, hold
         await asyncio.sleep(0.02)
     try:
         caller_loop.run_until_complete(from_other())
-        if not close_before:
+        if stopping:
+            join_owner()
+        elif not close_before:
             # let queued plain calls run, then stop the owner
             done = threading.Event()
             owner_loop.call_soon_threadsafe(lambda: owner_loop.call_later(0.01, done.set))
@@ -254,6 +283,12 @@ def run(ctx: Ctx):
         for calls, closed, burst in scen:
             traces.append(scenario(calls, close_before=closed, burst=burst))
             metas.append({"calls": calls, "closed": closed, "burst": burst, "rep": r})
+        # bursts of coroutine calls in flight when EventLoopThread.force_stop() is called: quick and slow unwinders in every order
+        for pat in (("coroWait", "coroSlow"), ("coroSlow", "coroWait"), ("coroWait", "coroSlow", "coroSlow", "coroWait"), ("coroSlow",) * 3, ("coroWait",) * 3,
+                    ("coroSlow", "coroWait", "coroWait", "coroSlow", "coroWait")):
+            calls = [(k, "other") for k in pat]
+            traces.append(scenario(calls, burst=len(calls), via_eventloopthread=True, stopping=True))
+            metas.append({"calls": calls, "closed": False, "burst": len(calls), "rep": r, "elt": True, "stopping": True})
         # the same with bellows' own EventLoopThread as owner (running, and stopped with force_stop so that its loop is closed)
         for calls, closed, burst in scen:
             if (len(calls) > 1 or closed or r == 0) and all(c[1] == "other" or not closed for c in calls):
@@ -281,6 +316,6 @@ def run(ctx: Ctx):
 def replay(ctx: Ctx, data):
     m = data["replay"]["meta"]
     tr = scenario([tuple(c) for c in m["calls"]], close_before=m["closed"], burst=m["burst"], hold=bool(m.get("hold")),
-                  via_eventloopthread=bool(m.get("elt")))
+                  via_eventloopthread=bool(m.get("elt")), stopping=bool(m.get("stopping")))
     ctx.validate_traces("Trace_ThreadProxy", [tr], metas=[m], label="thread proxy", length_of=length_of, dfs=True)
     ctx.add_sample(tr)
